@@ -171,7 +171,7 @@ func pgpKey(info Info, data []byte) (Info, error) {
 
 	for _, s := range e.Subkeys {
 		attrs := gpgPublicKeyAttributes(s.PublicKey)
-		attrs = append(attrs, gpgSignatureAttributes(s.Sig, s.PublicKey.CreationTime)...)
+		attrs = append(attrs, gpgBindingAttributes(s.Sig, s.PublicKey.CreationTime)...)
 		info.Children = append(info.Children, Info{
 			Description: "GPG/PGP subkey",
 			Attributes:  attrs,
